@@ -138,6 +138,18 @@ theorem derivatives_exact_for_polynomial_models {na d : ℕ} (S : List Idx) (hnd
       eval (x.getD m 0) (derivative (derivative (slice f d x m))) :=
   derivatives_exact S hnd hlen hdown nodes gs hgs hnodes st hN f hf x hx m hm
 
+/-- … and the cross entry `(m,n)`, `m ≠ n`, is the analytic mixed partial derivative `∂²f/∂x_n∂x_m` -/
+theorem cross_derivatives_exact_for_polynomial_models {na d : ℕ} (S : List Idx) (hnd : S.Nodup)
+    (hlen : ∀ s ∈ S, s.length = na + d) (hdown : ∀ s ∈ S, ∀ j, Idx.le j s = true → j ∈ S)
+    (nodes : ℕ → List Q) (gs : ℕ → ℕ) (hgs : Monotone gs) (hnodes : ∀ k, k < d → (nodes k).Nodup)
+    (st : Idx → LState) (hN : Nested na d nodes gs st S) (f : PolyModel)
+    (hf : ∀ t ∈ f, ∃ l ∈ S, (∀ k, k < d → (t.2 k).degree < gs (Idx.nth l (na + k))) ∧
+      (∀ k, k < d → gs (Idx.nth l (na + k)) ≤ (nodes k).length))
+    (x : List Q) (hx : x.length = d) (m n : ℕ) (hm : m < d) (hn : n < d) (hmn : m ≠ n) :
+    (miscSum (S.map fun i => (IE S i, hessT 0 (st i) (rowsOfPoly (st i) f) x m n))).getD 0 0 =
+      eval (x.getD n 0) (derivative (slice (dModel f m) d x n)) :=
+  cross_derivative_exact S hnd hlen hdown nodes gs hgs hnodes st hN f hf x hx m n hm hn hmn
+
 /-! non-vacuity: three rational nodes 0, 1, 1/2 -/
 example : Set.InjOn (fun i : Fin 3 => ([0, 1, 1/2] : List ℚ).getD i 0) (Finset.univ : Finset (Fin 3)) := by
   intro a _ b _ h
